@@ -226,6 +226,13 @@ class BuiltinMixin:
             if name in table:
                 if kind in ("val", "any"):
                     raise Unsupported("isinstance on an abstract value")
+                if name in ("tuple", "list") and kind == "list" and v.z is not None and self.cur is not None:
+                    # a parameter declared as a tuple of symbolic length (hint "tuple:<name>") is modelled as a sequence
+                    for h in self.cur.hints:
+                        if h.startswith("tuple:"):
+                            pv = st.frames[0].get(h[6:])
+                            if isinstance(pv, V) and pv.z is not None and pv.z.get_id() == v.z.get_id():
+                                return z3.BoolVal(name == "tuple")
                 return z3.BoolVal(kind in table[name])
         if is_static(a, "modattr"):
             if a.items == ("numpy", "ndarray"):
